@@ -42,20 +42,20 @@ var swapped = map[string]string{
 
 // imports library code may not use under the simulator
 var refusedImports = map[string]string{
-	"os":           "process environment / files",
-	"net":          "real sockets",
-	"net/http":     "real sockets",
-	"os/exec":      "processes",
-	"os/signal":    "signals",
+	"os":            "process environment / files",
+	"net":           "real sockets",
+	"net/http":      "real sockets",
+	"os/exec":       "processes",
+	"os/signal":     "signals",
 	"runtime/debug": "GC / runtime control",
-	"math/rand/v2": "unseeded randomness",
-	"crypto/rand":  "real randomness",
-	"C":            "cgo",
-	"syscall":      "system calls",
-	"io/ioutil":    "files",
-	"context":      "real timers / cancellation",
-	"weak":         "GC-dependent behaviour",
-	"unique":       "GC-dependent behaviour",
+	"math/rand/v2":  "unseeded randomness",
+	"crypto/rand":   "real randomness",
+	"C":             "cgo",
+	"syscall":       "system calls",
+	"io/ioutil":     "files",
+	"context":       "real timers / cancellation",
+	"weak":          "GC-dependent behaviour",
+	"unique":        "GC-dependent behaviour",
 }
 
 type instrResult struct {
